@@ -397,3 +397,81 @@ contract(
             f"delta == 0 or any({NEAR2.format(d='data')} == delta {ALLD.format(d='data')})"],
     },
 )
+
+
+# ---------------------------------------------------------------------------------------------
+# is_data_ge_zero on real files (C07.e, bounded): the answer is "the minimum stored value is >= 0"
+# for every storage dtype (the unsigned short-cut must not fire for signed integers) and encoding
+# ---------------------------------------------------------------------------------------------
+_FILES_DIR = []
+
+
+def _files_dir():
+    import atexit
+    import shutil
+    import tempfile
+    if not _FILES_DIR:
+        d = tempfile.mkdtemp(prefix='verif_ge0_', dir='/tmp')
+        _FILES_DIR.append(d)
+        atexit.register(shutil.rmtree, d, True)
+    return _FILES_DIR[0]
+
+
+_GE0_N = [0]
+
+
+def _gen_ge0_file(rng, size):
+    import os
+    import numpy as np
+    import anndata
+    import pandas as pd
+    import scipy.sparse as sp
+    _GE0_N[0] += 1
+    dt = rng.choice(['float64', 'float32', 'int64', 'int32', 'int16', 'int8', 'uint8', 'uint16', 'uint32'])
+    enc = rng.choice(['dense', 'csr', 'csc'])
+    layer = rng.choice(['X', 'X', 'raw'])
+    n_r, n_c = rng.randint(1, 4), rng.randint(1, 4)
+    X = np.array([[rng.choice([0, 0, 1, 2, 7, 100]) for _ in range(n_c)] for _ in range(n_r)], dtype=dt)
+    if not dt.startswith('u') and rng.random() < 0.5:
+        X[rng.randrange(n_r), rng.randrange(n_c)] = rng.choice([-1, -3, -100])
+    if X.max() == 0 and X.min() == 0:
+        X[0, 0] = 5
+    M_ = X if enc == 'dense' else (sp.csr_matrix(X) if enc == 'csr' else sp.csc_matrix(X))
+    obs = pd.DataFrame(index=[f'c{i}' for i in range(n_r)])
+    var = pd.DataFrame(index=[f'g{i}' for i in range(n_c)])
+    if layer == 'X':
+        a = anndata.AnnData(X=M_, obs=obs, var=var)
+    else:
+        a = anndata.AnnData(X=np.zeros((n_r, n_c), dtype='float32'), obs=obs, var=var, layers={'raw': M_})
+    p = os.path.join(_files_dir(), f'ge0_{os.getpid()}_{_GE0_N[0] % 40}.h5ad')
+    a.write_h5ad(p)
+    return dict(h5ad_path=p, layer=layer)
+
+
+def _true_min(h5ad_path, layer):
+    import h5py
+    import numpy as np
+    key = 'X' if layer == 'X' else f'layers/{layer}'
+    with h5py.File(h5ad_path, 'r') as f:
+        g = f[key]
+        if isinstance(g, h5py.Dataset):
+            return float(g[()].min())
+        data = g['data'][()]
+        shape = tuple(g.attrs['shape'])
+        stored = float(data.min()) if len(data) else 0.0
+        return min(stored, 0.0) if len(data) < shape[0] * shape[1] else stored
+
+
+contract(
+    M + 'is_data_ge_zero#files',
+    properties=['C07'], mode='bounded',
+    native=dict(gen=_gen_ge0_file, env=dict(true_min=_true_min),
+                bound='matrices <= 3 x 3, dtypes float64/32, int64/32/16/8, uint8/16/32, dense / CSR / CSC, X or a layer, '
+                      'with and without a negative entry'),
+    params=dict(h5ad_path='Name', layer='Name'),
+    returns='Tuple[Bool,Opt[Real]]',
+    ensures=[
+        "result[0] == (true_min(h5ad_path, layer) >= 0)",
+        "implies(not result[0], result[1] == true_min(h5ad_path, layer))",
+    ],
+)
